@@ -89,10 +89,15 @@ def transform(case, r, kind):
     panel['days'] = days
     if isinstance(panel['dates'][0], str):
       panel['dates'] = [d.isoformat() for d in days]
+    elif getattr(panel['dates'][0], 'tzinfo', None) is not None or any(ts.hour for ts in panel['dates']):
+      # tz-aware stamps / stamps with a time of day: shift every stamp by the same absolute duration
+      # (may cross a DST change; may be a fraction of a day) - the time points stay distinct and ordered
+      delta = pd.Timedelta(days=shift) + pd.Timedelta(hours=r.choice([0, 6, 13]))
+      panel['dates'] = [ts + delta for ts in panel['dates']]
     else:
       panel['dates'] = [pd.Timestamp(d) for d in days]
   if 'scale' in kinds:
-    k = r.choice([r.randrange(-3, 13), r.randrange(-3, 13), r.randrange(-30, -10), r.randrange(16, 32)])
+    k = r.choice([r.randrange(-3, 13), r.randrange(-3, 13), r.randrange(-30, -10), r.randrange(16, 32), r.randrange(-75, -50)])
     c = 2.0 ** k
     panel['values'] = panel['values'] * c
     if panel.get('dups'):
@@ -122,7 +127,11 @@ def run_case(spec):
     G = r.randrange(2, 13 if tier == 'quick' else 21)
   id_style = r.choice(['int', 'intmix', 'numstr']) if kind in ('id_type', 'all') else None
   cls = 'duplicates' if spec['idx'] % 17 == 0 else None
-  case = sl.make_case(r, g, G, id_style=id_style, cls=cls, elig_extra='none',
+  if kind in ('date_shift', 'all') and r.random() < 0.4:
+    dstyle = r.choice(['tz', 'timeofday'])
+  else:
+    dstyle = None
+  case = sl.make_case(r, g, G, id_style=id_style, cls=cls, elig_extra='none', date_style=dstyle,
                       focus=[None, 'budget', 'share', 'ngeos', 'volume', 'budget'][(spec['idx'] // 12) % 6])
   if kind in ('shuffle', 'all') and r.random() < 0.5:
     # restated rows: some (geo, date) cells occur twice with different values (the canonical table averages them)
